@@ -93,7 +93,7 @@ class Interp(StmtMixin):
 
     # ------------------------------------------------------------------ obligations
     def oblige(self, st, kind, label, goal, line=None, ordinal=None, expect="unsat", info=None):
-        if self.spec_mode and kind not in ("post", "exc", "inv-init", "inv-pres", "pre@call", "variant", "cover", "canary", "lemma"):
+        if self.spec_mode and kind not in ("dictcomp-distinct", "post", "exc", "inv-init", "inv-pres", "pre@call", "variant", "cover", "canary", "lemma"):
             return
         oid = f"{self.f.key}/{kind}"
         if ordinal is not None:
@@ -195,7 +195,7 @@ class Interp(StmtMixin):
         """Sequence content of a list-like value (value sequence or heap container ref)."""
         if isinstance(v.ty, tuple) and v.ty[0] == "seq":
             return v
-        if is_ref(v.ty) and (v.ty[1] == "deque" or v.ty[1].startswith("list_")):
+        if is_ref(v.ty) and (v.ty[1] == "deque" or v.ty[1].startswith("list_") or v.ty[1].startswith("set_")):
             return self.read_field(st, v, v.ty[1], "items")
         if v.ty == "pylist":
             if not v.py:
@@ -685,6 +685,11 @@ class Interp(StmtMixin):
                 yield st, base.py[node.slice.value]
                 return
             raise Unsupported("symbolic tuple index")
+        if isinstance(base.ty, tuple) and base.ty[0] == "tuple" and isinstance(node.slice, ast.Constant):
+            dt = sort_of(base.ty)
+            k = node.slice.value
+            yield st, Val(dt.accessor(0, k)(base.t), base.ty[1][k])
+            return
         if is_ref(base.ty) and base.ty[1].startswith("dict_"):
             cls = base.ty[1]
             ks = self.read_field(st, base, cls, "keys")
@@ -811,6 +816,64 @@ class Interp(StmtMixin):
     def ev_GeneratorExp(self, e, st):
         yield from self.comprehension(e, st, "list")
 
+    def ev_DictComp(self, e, st):
+        """{kexpr: vexpr for (k, v) in d.items()} / for x in seq — a dict *value*: (key sequence, key -> value array).
+        The keys must be pairwise distinct (obligation `dictcomp-distinct`), otherwise 'last wins' would need modelling."""
+        if len(e.generators) != 1 or e.generators[0].ifs:
+            raise Unsupported("dict comprehension shape")
+        g = e.generators[0]
+        it_expr = g.iter
+        items_of = None
+        if isinstance(it_expr, ast.Call) and isinstance(it_expr.func, ast.Attribute) and it_expr.func.attr == "items" and not it_expr.args:
+            items_of = it_expr.func.value
+        for st1, it in self.ev(items_of if items_of is not None else it_expr, st):
+            if isinstance(it, Raise):
+                yield st1, it
+                continue
+            i = fresh_const("di", I)
+            if items_of is not None:
+                if not (is_ref(it.ty) and it.ty[1].startswith("dict_")):
+                    raise Unsupported("items() of a non-dict")
+                ks = self.read_field(st1, it, it.ty[1], "keys")
+                mp = self.read_field(st1, it, it.ty[1], "map")
+                n = z3.Length(ks.t)
+                s2 = st1.assume(z3.And(i >= 0, i < n))
+                if not (isinstance(g.target, ast.Tuple) and len(g.target.elts) == 2):
+                    raise Unsupported("items() target")
+                vty = mp.ty[2]
+                vty = ("ref", self.c.get("dict_values", {}).get(it.ty[1], "opaque")) if vty == "int" else vty
+                s2.env[g.target.elts[0].id] = Val(ks.t[i], ks.ty[1])
+                s2.env[g.target.elts[1].id] = Val(z3.Select(mp.t, ks.t[i]), vty)
+            else:
+                sq = self.seq_of(st1, it)
+                n = z3.Length(sq.t)
+                s2 = st1.assume(z3.And(i >= 0, i < n))
+                s2.env[g.target.id] = Val(sq.t[i], sq.ty[1])
+            self.spec_mode += 1
+            try:
+                kres = list(self.ev(e.key, s2))
+                vres = list(self.ev(e.value, s2))
+            finally:
+                self.spec_mode -= 1
+            if len(kres) != 1 or len(vres) != 1 or isinstance(kres[0][1], Raise) or isinstance(vres[0][1], Raise):
+                raise Unsupported("forking key/value expression in dict comprehension")
+            kv, vv = kres[0][1], vres[0][1]
+            rk = fresh_const("dk", z3.SeqSort(kv.t.sort()))
+            rm = fresh_const("dm", z3.ArraySort(kv.t.sort(), vv.t.sort()))
+            rng = z3.And(i >= 0, i < n)
+            # distinct keys: kexpr(i) != kexpr(j) for i != j
+            j = fresh_const("dj", I)
+            kj = z3.substitute(kv.t, (i, j))
+            self.oblige(st1, "dictcomp-distinct", "keys produced by the dict comprehension are pairwise distinct",
+                        z3.ForAll([i, j], z3.Implies(z3.And(rng, j >= 0, j < n, i != j), kv.t != kj)), getattr(e, "lineno", None))
+            s3 = st1.assume(z3.Length(rk) == n)
+            s3 = s3.assume(z3.ForAll([i], z3.Implies(rng, z3.And(rk[i] == kv.t, z3.Select(rm, kv.t) == vv.t)), patterns=[rk[i]]))
+            yield s3, Val(None, "dictval", (Val(rk, ("seq", kv.ty)), Val(rm, ("map", kv.ty, vv.ty if not is_ref(vv.ty) else "int"))))
+
+    def ev_SetComp(self, e, st):
+        # a set is modelled by a sequence of its members in an arbitrary order (membership semantics only)
+        yield from self.comprehension(e, st, "set")
+
     def comprehension(self, e, st, kind):
         if len(e.generators) != 1:
             raise Unsupported("nested comprehension")
@@ -859,25 +922,52 @@ class Interp(StmtMixin):
                 yield from go(0, st1, [])
                 continue
             # symbolic-length sequence: only pure, non-raising, unfiltered element maps
-            s = self.seq_of(st1, it)
-            if g.ifs or not isinstance(g.target, ast.Name):
+            if is_ref(it.ty) and it.ty[1].startswith("dict_"):
+                s = self.read_field(st1, it, it.ty[1], "keys")
+            else:
+                s = self.seq_of(st1, it)
+            if g.ifs:
                 raise Unsupported("filtered comprehension over symbolic sequence")
             i = fresh_const("ci", I)
-            s2 = st1.fork()
-            s2.env[g.target.id] = Val(s.t[i], s.ty[1])
-            self.spec_mode += 1
-            try:
-                res = list(self.ev(e.elt, s2))
-            finally:
-                self.spec_mode -= 1
-            if len(res) != 1 or isinstance(res[0][1], Raise):
+            n = z3.Length(s.t)
+            s2 = st1.assume(z3.And(i >= 0, i < n))
+            base_len = len(s2.conds)
+            elem = Val(s.t[i], s.ty[1])
+            if isinstance(g.target, ast.Name):
+                s2.env[g.target.id] = elem
+            elif isinstance(g.target, ast.Tuple) and isinstance(elem.ty, tuple) and elem.ty[0] == "tuple" and all(isinstance(x, ast.Name) for x in g.target.elts):
+                dt = sort_of(elem.ty)
+                for j, nm in enumerate(g.target.elts):
+                    s2.env[nm.id] = Val(dt.accessor(0, j)(elem.t), elem.ty[1][j])
+            else:
+                raise Unsupported("comprehension target")
+            # element expression evaluated at a symbolic index: exactly one normal outcome (guarded by G(i)); raising outcomes
+            # become "some index raises"
+            res = list(self.ev(e.elt, s2))
+            normals = [(sx, v) for sx, v in res if not isinstance(v, Raise)]
+            for sx, v in res:
+                if isinstance(v, Raise):
+                    sr = st1.fork()
+                    sr.conds.extend(sx.conds[len(st1.conds):])     # a witness index exists (i is fresh here)
+                    if self.feasible(sr):
+                        yield sr, v
+            if len(normals) != 1:
+                if not normals:
+                    continue
                 raise Unsupported("forking element expression in comprehension over symbolic sequence")
-            body = res[0][1]
+            sx, body = normals[0]
+            if body.ty == "tuple":
+                tys = tuple(x.ty for x in body.py)
+                dt = sort_of(("tuple", tys))
+                body = Val(dt.constructor(0)(*[x.t for x in body.py]), ("tuple", tys))
+            guard = sx.conds[base_len:]
             rty = ("seq", body.ty)
             r = fresh_const("comp", sort_of(rty))
-            n = z3.Length(s.t)
             s3 = st1.assume(z3.Length(r) == n)
-            s3 = s3.assume(z3.ForAll([i], z3.Implies(z3.And(i >= 0, i < n), r[i] == body.t)))
+            rng = z3.And(i >= 0, i < n)
+            if guard:
+                s3 = s3.assume(z3.ForAll([i], z3.Implies(rng, z3.And(*guard))))
+            s3 = s3.assume(z3.ForAll([i], z3.Implies(rng, r[i] == body.t), patterns=[r[i]]))
             yield s3, Val(r, rty)
 
     def ev_Call(self, e, st):
